@@ -33,6 +33,45 @@ CHECKS = {
             'ProtocolCommand.execute from the harness.  Bounded by history depth (2 quick / 3 thorough); the '
             'evidence reports in how many configurations the state fixpoint was reached below the bound.',
             'DESIGN.md section 3, C05'),
+    'C06': ('model_checking',
+            'stateless exhaustive exploration of caller start offsets x per-transmission answers with 2-4 real tasks',
+            'Two to four asyncio tasks call read_sensor() on one real ET object; every combination of start offsets '
+            '{0, 0.3T, T, T+eps, 1.3T} and per-transmission answers {prompt, drop, delayed, two fragments} (all '
+            'within the proviso of the property) is executed for N=2 (N=3 in the thorough tier; deviation-bounded '
+            'beyond).  The monitor checks mutual exclusion on the wire against the peer-side record of outstanding '
+            'transmissions, that each caller gets its own tag, deadlock freedom and the loop exception handler.',
+            'Trusted: kernel model, CPython 3.12.1 asyncio (Lock fairness, task wake-up order are the real ones).',
+            'DESIGN.md section 3, C06'),
+    'C07': ('model_checking',
+            'exhaustive enumeration of split points/delays/second pieces, each executed on the real transports',
+            'For every framing, read count, split point from the minimal header to len-1, delay of the second piece '
+            'and keep-alive setting the split answer is served through the real datagram/stream transports and '
+            'must be reassembled exactly with one transmission.  Negative second pieces (every bit flip for small '
+            'counts, +-1 byte, other block, garbage) and left-over-fragment scenarios over several transmissions '
+            'are checked against an oracle that only accepts well-formed frames (independent classifier) made of '
+            'data received for the final transmission.',
+            'Trusted: kernel model (stream transport coalesces simultaneous pieces as the real one does), mc/wire.py. '
+            'Two fragments only; second-piece alphabet as listed in the evidence.',
+            'DESIGN.md section 3, C07'),
+    'C08': ('model_checking',
+            'exhaustive enumeration of exception codes x commands x retry positions on the real protocol objects',
+            'All 256 exception codes x read/write/write-multi x RTU/MBAP are fed to the real validators and, as the '
+            'answer to transmission k+1 after k silent timeouts for every k<=R, to the real protocol objects: the '
+            'request must fail with RequestRejectedException carrying the reason text of the Modbus specification, '
+            'at the arrival time of the frame, with no further transmission.',
+            'Trusted: reason table in mc/wire.py (written from the Modbus spec), kernel model.',
+            'DESIGN.md section 3, C08'),
+    'C09': ('model_checking',
+            'exhaustive fault-script exploration through the public API + BFS over failure histories + byte-class products',
+            '(a) every script over the C04 alphabet extended with OS-level errors (send errors, late ICMP/RST after '
+            'completion) to depth retries+1 is run through public calls of ET/DT/ES objects; every raised exception '
+            'must be an InverterError (RequestFailed/RequestRejected for Inverter methods) and the loop exception '
+            'handler must stay silent.  (b) BFS with fingerprint de-duplication over success/failure histories up '
+            'to length 8 checks consecutive_failures_count against a reference counter.  (c) identification '
+            'payloads built from byte classes in every text field go through connect()/discover().',
+            'Trusted: kernel model, CPython 3.12.1 asyncio.  A rejected request is neither success nor failure for '
+            'the counter (both readings accepted).',
+            'DESIGN.md section 3, C09'),
 }
 
 NOT_BUILT = 'check not built yet (planned, see DESIGN.md section 3)'
